@@ -116,6 +116,18 @@ def check_one(mido, specs, acc, via_file, long=None):
     variants = [('skip_checks=False', lambda: mido.merge_tracks(tracks)),
                 ('skip_checks=True',
                  lambda: mido.merge_tracks(tracks, skip_checks=True))]
+    # less-travelled argument forms: a generator / tuple of tracks, tracks
+    # that are plain lists or tuples of messages (rotating, one per case)
+    alt = ((('generator-of-tracks',
+             lambda: mido.merge_tracks(t for t in tracks)),),
+           (('tuple-of-tracks', lambda: mido.merge_tracks(tuple(tracks))),),
+           (('tracks-as-lists',
+             lambda: mido.merge_tracks([list(t) for t in tracks])),),
+           (('tracks-as-tuples+skip_checks',
+             lambda: mido.merge_tracks(iter([tuple(t) for t in tracks]),
+                                       skip_checks=True)),),
+           ())[acc.evals % 5]
+    variants += list(alt)
     if via_file:
         variants.append(('MidiFile.merged_track',
                          lambda: mido.MidiFile(type=1, tracks=tracks).merged_track))
